@@ -41,7 +41,7 @@ def body_factory(tier, seed):
 
 
 EXTRA = None
-KINDS = ("ok", "explicit", "bad-req", "bad-res", "raise-", "corpus-D4")
+KINDS = ("ok", "explicit", "bad-req", "bad-res", "raise-", "corpus-D4", "malformed-5th")
 
 
 def run(rep, tier, seed):
